@@ -32,7 +32,7 @@ RULE = (
     ">=2 event kinds; distinct by SHA-1 of the case."
 )
 ASSUMPTIONS = ["valid reconciliations only", "object leaf names contain an underscore when no labelling is drawn (renderer's documented naming convention)"]
-BUDGET = {"quick": {"random": 1200}, "thorough": {"random": 20000}}
+BUDGET = {"quick": {"random": 5000}, "thorough": {"random": 60000}}
 EPS = 2e-3
 
 
